@@ -4,6 +4,8 @@ import (
 	"fmt"
 	"go/token"
 	"go/types"
+	"os"
+	"regexp"
 	"sort"
 	"strings"
 
@@ -105,6 +107,8 @@ func (d disj) killField(f string) {
 
 type nstate []disj
 
+var reSSAName = regexp.MustCompile(`v:(t[0-9]+)`)
+
 func joinStates(a, b nstate) nstate {
 	seen := map[string]bool{}
 	var out nstate
@@ -115,17 +119,48 @@ func joinStates(a, b nstate) nstate {
 			out = append(out, d)
 		}
 	}
-	if len(out) > 10 {
-		// merge: keep facts every disjunct agrees on
-		m := out[0].clone()
-		for _, d := range out[1:] {
-			for k, v := range m {
-				if dv, ok := d[k]; !ok || dv != v {
-					delete(m, k)
+	// over the cap: merge the two most similar disjuncts (keeping what they agree on) until under it —
+	// distinctions carried by few facts survive longest
+	const capN = 24
+	for len(out) > capN {
+		bi, bj, best := 0, 1, 1<<30
+		for i := 0; i < len(out); i++ {
+			for j := i + 1; j < len(out); j++ {
+				diff := 0
+				for k, v := range out[i] {
+					if w, ok := out[j][k]; !ok || w != v {
+						diff++
+					}
+				}
+				for k := range out[j] {
+					if _, ok := out[i][k]; !ok {
+						diff++
+					}
+				}
+				if diff < best {
+					bi, bj, best = i, j, diff
 				}
 			}
 		}
-		return nstate{m}
+		m := disj{}
+		for k, v := range out[bi] {
+			if w, ok := out[bj][k]; ok && w == v {
+				m[k] = v
+			}
+		}
+		out[bi] = m
+		out = append(out[:bj], out[bj+1:]...)
+		// dedupe after the merge
+		seen2 := map[string]bool{}
+		var o2 nstate
+		for _, d := range out {
+			c := d.canon()
+			if !seen2[c] {
+				seen2[c] = true
+				o2 = append(o2, d)
+			}
+		}
+		out = o2
 	}
 	return out
 }
@@ -163,6 +198,12 @@ type nilAnalysis struct {
 	lifted    map[*ssa.Function][]liftedReq
 	callers   map[*ssa.Function][]ssa.CallInstruction
 	asValue   map[*ssa.Function]bool
+	// hooks for client analyses that ride on the same disjunctive dataflow (reflect typestate)
+	hookRefine   func(d disj, c Cond) (disj, bool)
+	hookTransfer func(st nstate, in ssa.Instruction) nstate
+	hookPhi      func(n disj, d disj, ph *ssa.Phi, edge ssa.Value)
+	hookEntry    func(fn *ssa.Function, d disj)
+	curFn        *ssa.Function
 }
 
 // liftedReq: callee requires nonnil(param idx + suffix) at entry.
@@ -264,7 +305,7 @@ func accessPath(v ssa.Value) string {
 					}
 					return "alloc:" + ad.Name()
 				case *ssa.IndexAddr:
-					idx := ad.Index.Name()
+					idx := "v:" + ad.Index.Name()
 					if k, ok := constInt(ad.Index); ok {
 						idx = fmt.Sprint(k)
 					}
@@ -397,6 +438,11 @@ func (a *nilAnalysis) possiblyNil(v ssa.Value, seen map[ssa.Value]bool) string {
 // refine applies `cond == truth` to d; returns nil on contradiction.
 func (a *nilAnalysis) refine(d disj, cond ssa.Value, truth bool) disj {
 	c := normCond(Cond{V: cond, True: truth})
+	if a.hookRefine != nil {
+		if n, handled := a.hookRefine(d, c); handled {
+			return n
+		}
+	}
 	switch x := c.V.(type) {
 	case *ssa.BinOp:
 		if x.Op != token.EQL && x.Op != token.NEQ {
@@ -439,6 +485,9 @@ func (a *nilAnalysis) refine(d disj, cond ssa.Value, truth bool) disj {
 		if cur != -1 && cur != val && kind == "nil" {
 			return nil
 		}
+		if a.curFn != nil && !a.interest(a.curFn).has(accessPath(other)) && !a.interest(a.curFn).has("v:"+other.Name()) {
+			return d
+		}
 		n := d.clone()
 		if !n.set(accessPath(other), val) {
 			return nil
@@ -470,6 +519,12 @@ func (a *nilAnalysis) refine(d disj, cond ssa.Value, truth bool) disj {
 				n := d.clone()
 				if !n.set(accessPath(l), 1) {
 					return nil
+				}
+				// also by value identity: the path may mention an index that is dead further down
+				for _, ref := range *l.Referrers() {
+					if ex, ok := ref.(*ssa.Extract); ok && ex.Index == 0 {
+						n["v:"+ex.Name()] = 1
+					}
 				}
 				return n
 			}
@@ -514,6 +569,9 @@ func (a *nilAnalysis) isTypeRefCheck(g *ssa.Function) bool {
 
 // transfer applies the effect of one instruction to every disjunct (in place on clones).
 func (a *nilAnalysis) transfer(st nstate, in ssa.Instruction) nstate {
+	if a.hookTransfer != nil {
+		st = a.hookTransfer(st, in)
+	}
 	switch x := in.(type) {
 	case *ssa.Store:
 		if fa, ok := x.Addr.(*ssa.FieldAddr); ok {
@@ -549,6 +607,9 @@ func (a *nilAnalysis) transfer(st nstate, in ssa.Instruction) nstate {
 		if isPointerLike(x.X.Type()) {
 			out := make(nstate, 0, len(st))
 			k := accessPath(x.X)
+			if a.curFn != nil && !a.interest(a.curFn).has(k) {
+				return st
+			}
 			for _, d := range st {
 				if old, ok := d[k]; ok && old == 1 {
 					out = append(out, d)
@@ -575,6 +636,8 @@ func (a *nilAnalysis) analyse(fn *ssa.Function) map[*ssa.BasicBlock]nstate {
 	}
 	a.inProg[fn] = true
 	defer delete(a.inProg, fn)
+	prevFn := a.curFn
+	defer func() { a.curFn = prevFn }()
 	states := map[*ssa.BasicBlock]nstate{}
 	init := disj{}
 	// closures inherit the facts of their creation point
@@ -583,6 +646,10 @@ func (a *nilAnalysis) analyse(fn *ssa.Function) map[*ssa.BasicBlock]nstate {
 			init = inh
 		}
 	}
+	if a.hookEntry != nil {
+		a.hookEntry(fn, init)
+	}
+	a.curFn = fn
 	states[fn.Blocks[0]] = nstate{init}
 	work := []*ssa.BasicBlock{fn.Blocks[0]}
 	visits := map[*ssa.BasicBlock]int{}
@@ -625,9 +692,13 @@ func (a *nilAnalysis) analyse(fn *ssa.Function) map[*ssa.BasicBlock]nstate {
 					} else {
 						n["v:"+ph.Name()] = v
 					}
+					if a.hookPhi != nil {
+						a.hookPhi(n, d, ph, ph.Edges[idx])
+					}
 				}
 				withPhi = append(withPhi, n)
 			}
+			withPhi = a.pruneDead(fn, s, withPhi)
 			old, had := states[s]
 			var nw nstate
 			if had {
@@ -663,6 +734,32 @@ func (a *nilAnalysis) analyse(fn *ssa.Function) map[*ssa.BasicBlock]nstate {
 		}
 	}
 	a.entry[fn] = states
+	if os.Getenv("GQLVET_DEBUG") != "" {
+		mx, tot := 0, 0
+		for _, st := range states {
+			if len(st) > mx {
+				mx = len(st)
+			}
+			tot += len(st)
+		}
+		maxV := 0
+		for _, v := range visits {
+			if v > maxV {
+				maxV = v
+			}
+		}
+		fmt.Fprintf(os.Stderr, "nilfacts %s: blocks=%d maxDisj=%d total=%d maxVisits=%d\n", a.p.FuncName(fn), len(fn.Blocks), mx, tot, maxV)
+		if os.Getenv("GQLVET_DEBUG") == a.p.FuncName(fn) {
+			for b, st := range states {
+				if want := os.Getenv("GQLVET_BLOCK"); (want == "" && len(st) == mx) || want == fmt.Sprint(b.Index) {
+					for _, d := range st {
+						fmt.Fprintf(os.Stderr, "   b%d: %s\n", b.Index, d.canon())
+					}
+					break
+				}
+			}
+		}
+	}
 	return states
 }
 
@@ -677,6 +774,9 @@ func (a *nilAnalysis) stateAt(at ssa.Instruction) nstate {
 	if !ok {
 		return nil // unreachable
 	}
+	prevFn := a.curFn
+	a.curFn = fn
+	defer func() { a.curFn = prevFn }()
 	for _, in := range at.Block().Instrs {
 		if in == at {
 			break
@@ -906,6 +1006,11 @@ func (a *nilAnalysis) findings() (out []nilFinding, checked int) {
 			if safe {
 				continue
 			}
+			if os.Getenv("GQLVET_DEBUG") != "" {
+				for _, dj := range st {
+					fmt.Fprintf(os.Stderr, "UNSAFE %s %s: eval=%d state=%s\n", a.p.FuncName(fn), accessPath(d.v), a.evalNil(d.v, dj), dj.canon())
+				}
+			}
 			if idx, suffix, ok := a.liftable(fn, d.v); ok {
 				queue = append(queue, pending{fn, liftedReq{idx, suffix, why, d.what, 0, a.p.FuncName(fn) + ":" + trimKey(accessPath(d.v)) + d.what}})
 				continue
@@ -1093,4 +1198,202 @@ func (a *nilAnalysis) resolveCallee(ci ssa.CallInstruction) *ssa.Function {
 		return nil
 	}
 	return nil
+}
+
+// liveness support: a fact that mentions an SSA value with no use in or after block b is dropped, which keeps the
+// number of distinct disjuncts small.
+type liveInfo struct {
+	byName map[string]ssa.Value
+	reach  map[*ssa.BasicBlock]map[*ssa.BasicBlock]bool
+}
+
+var liveMemo = map[*ssa.Function]*liveInfo{}
+
+func liveOf(fn *ssa.Function) *liveInfo {
+	if li, ok := liveMemo[fn]; ok {
+		return li
+	}
+	li := &liveInfo{byName: map[string]ssa.Value{}, reach: map[*ssa.BasicBlock]map[*ssa.BasicBlock]bool{}}
+	for _, b := range fn.Blocks {
+		for _, in := range b.Instrs {
+			if v, ok := in.(ssa.Value); ok {
+				li.byName[v.Name()] = v
+			}
+		}
+		li.reach[b] = reachAvoiding(b, nil, nil)
+	}
+	liveMemo[fn] = li
+	return li
+}
+
+func (a *nilAnalysis) pruneDead(fn *ssa.Function, at *ssa.BasicBlock, st nstate) nstate {
+	li := liveOf(fn)
+	liveCache := map[string]bool{}
+	isLive := func(name string) bool {
+		if r, ok := liveCache[name]; ok {
+			return r
+		}
+		v, ok := li.byName[name]
+		res := true
+		if ok && v.Referrers() != nil {
+			res = false
+			var def *ssa.BasicBlock
+			if in, isIn := v.(ssa.Instruction); isIn {
+				def = in.Block()
+			}
+			// live-in at `at`: a use is reachable without passing the definition again
+			var r map[*ssa.BasicBlock]bool
+			if def != nil && def != at {
+				r = reachAvoiding(at, func(b *ssa.BasicBlock) bool { return b == def }, nil)
+			} else if def == at {
+				if _, isPhi := v.(*ssa.Phi); isPhi {
+					r = li.reach[at] // a phi of this block was just given its value on the incoming edge
+				} else {
+					r = map[*ssa.BasicBlock]bool{} // redefined in this block before any use
+				}
+			} else {
+				r = li.reach[at]
+			}
+			for _, ref := range *v.Referrers() {
+				rb := ref.Block()
+				if rb == nil {
+					continue
+				}
+				if ph, isPhi := ref.(*ssa.Phi); isPhi {
+					// a phi uses the value on the edge from the predecessor
+					for i, e := range ph.Edges {
+						if e == v && i < len(rb.Preds) && (r[rb.Preds[i]] || rb.Preds[i] == at) {
+							res = true
+						}
+					}
+					continue
+				}
+				if r[rb] || (def != at && rb == at) {
+					res = true
+					break
+				}
+			}
+		}
+		liveCache[name] = res
+		return res
+	}
+	seen := map[string]bool{}
+	var out nstate
+	for _, d := range st {
+		var n disj
+		for k := range d {
+			dead := false
+			for _, m := range reSSAName.FindAllStringSubmatch(k, -1) {
+				if !isLive(m[1]) {
+					dead = true
+				}
+			}
+			if dead {
+				if n == nil {
+					n = d.clone()
+				}
+				delete(n, k)
+			}
+		}
+		if n == nil {
+			n = d
+		}
+		c := n.canon()
+		if !seen[c] {
+			seen[c] = true
+			out = append(out, n)
+		}
+	}
+	return out
+}
+
+// interest: the access paths whose nil-ness can matter in fn — the dereferenced possibly-nil values (and what flows
+// into them through phis and local cells) and the pointer arguments of calls. Conditions and stores on other paths
+// are ignored, which keeps the disjunctive state small.
+type interestSet struct {
+	bases map[string]bool
+}
+
+var interestMemo = map[*ssa.Function]*interestSet{}
+
+func (a *nilAnalysis) interest(fn *ssa.Function) *interestSet {
+	if is, ok := interestMemo[fn]; ok {
+		return is
+	}
+	is := &interestSet{bases: map[string]bool{}}
+	var add func(v ssa.Value, d int)
+	seen := map[ssa.Value]bool{}
+	add = func(v ssa.Value, d int) {
+		if v == nil || d > 6 || seen[v] {
+			return
+		}
+		seen[v] = true
+		is.bases[accessPath(v)] = true
+		is.bases["v:"+v.Name()] = true
+		switch x := stripChange(v).(type) {
+		case *ssa.Phi:
+			for _, e := range x.Edges {
+				add(e, d+1)
+			}
+		case *ssa.UnOp:
+			if al, ok := x.X.(*ssa.Alloc); ok {
+				for _, sv := range storesTo(al) {
+					add(sv, d+1)
+				}
+			}
+		case *ssa.Extract:
+			add(x.Tuple, d+1)
+		}
+	}
+	allInstrs(fn, func(in ssa.Instruction) {
+		switch x := in.(type) {
+		case *ssa.FieldAddr:
+			if isPointerLike(x.X.Type()) {
+				add(x.X, 0)
+			}
+		case *ssa.UnOp:
+			if x.Op == token.MUL && isPointerLike(x.X.Type()) {
+				add(x.X, 0)
+			}
+		case ssa.CallInstruction:
+			for _, arg := range x.Common().Args {
+				if isPointerLike(arg.Type()) {
+					add(arg, 0)
+				} else if _, isI := arg.Type().Underlying().(*types.Interface); isI {
+					add(arg, 0)
+				}
+			}
+		case *ssa.Return:
+			for _, rv := range x.Results {
+				if isPointerLike(rv.Type()) {
+					add(rv, 0)
+				}
+			}
+		case *ssa.MakeClosure:
+			for _, b := range x.Bindings {
+				add(b, 0)
+			}
+		}
+	})
+	interestMemo[fn] = is
+	return is
+}
+
+func (is *interestSet) has(key string) bool {
+	if is.bases[key] {
+		return true
+	}
+	for b := range is.bases {
+		if strings.HasPrefix(key, b+".") || strings.HasPrefix(key, b+"[") || strings.HasPrefix(b, key+".") || strings.HasPrefix(b, key+"[") {
+			return true
+		}
+		// NamedType feeds the Elem derivation
+		if strings.HasSuffix(key, ".NamedType") && strings.HasPrefix(b, strings.TrimSuffix(key, "NamedType")+"Elem") {
+			return true
+		}
+		if strings.HasPrefix(key, "lk:") && strings.Contains(b, key) {
+			return true
+		}
+	}
+	return false
 }
